@@ -189,6 +189,8 @@ def strip_implicit(n):
 def strip_all(n):
     while True:
         k = n.get('kind')
+        if k == 'ImplicitCastExpr' and n.get('castKind') in ('DerivedToBase', 'UncheckedDerivedToBase'):
+            return n
         if k in ('ImplicitCastExpr', 'MaterializeTemporaryExpr', 'ExprWithCleanups',
                  'CXXBindTemporaryExpr') and len(kids(n)) == 1:
             n = kids(n)[0]
@@ -201,12 +203,13 @@ def strip_all(n):
 
 def _is_copy_ctor(n):
     t = n.get('ctorType', {}).get('qualType', '')
+    own = norm_type((n.get('type', {}).get('desugaredQualType') or n.get('type', {}).get('qualType', '')).rstrip('&'))
     # void (const X &) or void (X &&)
     m = re.match(r'void \((.*)\)( noexcept)?$', t)
     if not m:
         return False
     a = m.group(1)
-    return ('&' in a) and (',' not in _top_level_split(a)[0] and len(_top_level_split(a)) == 1)
+    return a.rstrip().endswith('&') and len(_top_level_split(a)) == 1 and norm_type(a.rstrip().rstrip('&')) == own
 
 
 def _top_level_split(s):
@@ -256,6 +259,7 @@ def norm_type(t):
     t = re.sub(r'\s+', ' ', t).strip()
     t = re.sub(r'\s*([<>,&*])\s*', r'\1', t)
     t = re.sub(r',allocator<[^<>]*(<[^<>]*>)?[^<>]*>', '', t)
+    t = re.sub(r'numeric_type_of<[^<>]*(<[^<>]*>)?[^<>]*>', 'double', t)
     return t
 
 
@@ -290,6 +294,8 @@ class TypeMap:
         if m:
             e = self.info(m.group(1))
             return dict(ctype=e['ctype'], kind='carray', elem=e, count=int(m.group(2)), ref=ref, ptr=ptr, const=const)
+        if t.startswith('mersenne_twister_engine<') or t in ('mt19937', 'vpinst::Rng'):
+            return dict(ctype='vp_rng', kind='engine', ref=ref, ptr=ptr, const=const)
         if t in ('basic_string<char>', 'string', 'basic_string<char,char_traits<char>>'):
             return dict(ctype='vp_string', kind='opaque', ref=ref, ptr=ptr, const=const)
         if t.startswith('__gnu_cxx::__normal_iterator<'):
@@ -397,6 +403,15 @@ class Emitter:
 
     def o_ImplicitCastExpr(self, n):
         ck = n.get('castKind')
+        if ck in ('DerivedToBase', 'UncheckedDerivedToBase'):
+            # the base-class sub-object is the first member `base` of the generated struct
+            self.fire('G10')
+            inner = kids(n)[0]
+            steps = max(1, len(n.get('path', [])))
+            it = self.tm.info(qtype(inner))
+            if it['ptr']:
+                return '(&(%s)->%s)' % (self.emit(inner), '.'.join(['base'] * steps))
+            return '(%s).%s' % (self.emit(inner), '.'.join(['base'] * steps))
         if self.af and ck in ('IntegralToFloating', 'FloatingToIntegral'):
             self.fire('AF-cast')
             inner = self._only(n)
@@ -432,6 +447,15 @@ class Emitter:
         ks = kids(n)
         inner = self.emit(ks[0])
         return '((%s)(%s))' % (ti['ctype'], inner)
+
+    def o_CXXUnresolvedConstructExpr(self, n):
+        # T(x) in an uninstantiated default argument
+        tq = n.get('typeAsWritten', {}).get('qualType') or qtype(n)
+        if tq.strip() != 'T':
+            raise ExtractError('unresolved construct of ' + tq)
+        self.fire('G4')
+        ks = kids(n)
+        return '((T)(%s))' % (self.emit(ks[0]) if ks else '0')
 
     def o_CXXStaticCastExpr(self, n):
         ti = self.tm.info(qtype(n))
@@ -509,6 +533,8 @@ class Emitter:
     def decl_ctype(self, ti):
         if ti['kind'] in ('class',):
             return 'struct ' + ti['ctype']
+        if ti['kind'] == 'engine':
+            return 'struct ' + ti['ctype']
         return ti['ctype']
 
     def vardecl(self, n):
@@ -537,13 +563,28 @@ class Emitter:
             const = 'const ' if ti['const'] else ''
             return '%s%s %s = %s;' % (const, cty, name, txt)
         # class or vector local
+        hoist = getattr(self, 'loop_depth', 0) > 0
+        if hoist:
+            # CBMC 6.11 dfcc loses track of address-taken locals declared inside a loop body after a nested loop
+            # (assigns checks fail spuriously): such objects are declared at function level instead (G6);
+            # their constructor call stays where it was.
+            d = '%s %s;' % (cty, name)
+            if d not in self.temps:
+                if any(t.endswith(' %s;' % name) for t in self.temps):
+                    raise ExtractError('two loop-local objects named %s with different types' % name)
+                self.temps.append(d)
+            decl = ''
+        else:
+            decl = '%s %s; ' % (cty, name)
         if init is None:
-            return '%s %s;' % (cty, name)
+            return decl
         tgt = strip_all(init)
         val = self.emit_as_object(tgt, ti, name)
         if val[0] == 'lvalue' or val[0] == 'rvalue':
+            if hoist:
+                return '%s = %s;' % (name, val[1])
             return '%s %s = %s;' % (cty, name, val[1])
-        return '%s %s; %s' % (cty, name, val[1].replace('@DST@', '&' + name))
+        return '%s%s' % (decl, val[1].replace('@DST@', '&' + name))
 
     def emit_as_object(self, n, ti, hint):
         """Expression of class/vector type.  Returns ('lvalue', text) / ('rvalue', text) /
@@ -590,6 +631,15 @@ class Emitter:
             ctor_t = n.get('ctorType', {}).get('qualType') or n.get('type', {}).get('qualType')
             cname = self.ctor_name(ti, ctor_t, len(args))
             self.calls.add(cname)
+            if args and self.tm.info(qtype(args[0]))['kind'] == 'iter':
+                va, ia = self.iter_parts(args[0])
+                al = ['&(%s)' % va, ia]
+                for a in args[1:]:
+                    vb, ib = self.iter_parts(a)
+                    if vb != va:
+                        raise ExtractError('iterators into different containers')
+                    al.append(ib)
+                return '%s(@DST@, %s);' % (cname, ', '.join(al))
             return '%s(@DST@%s);' % (cname, ''.join(', ' + self.arg(a, None) for a in args))
         raise ExtractError('construct of ' + str(ti))
 
@@ -623,14 +673,6 @@ class Emitter:
             raise ExtractError('bare bound member function ' + name)
         self.fire('G10')
         sb = strip_all(base)
-        # inherited members live in the `base` sub-object (one level per DerivedToBase step)
-        pre = ''
-        b2 = base
-        while b2.get('kind') in ('ImplicitCastExpr', 'MaterializeTemporaryExpr', 'ExprWithCleanups') and len(kids(b2)) == 1:
-            if b2.get('castKind') in ('UncheckedDerivedToBase', 'DerivedToBase'):
-                pre += 'base.' * max(1, len(b2.get('path', [])))
-            b2 = kids(b2)[0]
-        name = pre + name
         fd = self.u.by_id.get(n.get('referencedMemberDecl'))
         isref = False
         if fd is not None:
@@ -668,7 +710,41 @@ class Emitter:
             return '&(%s)' % self.emit(sa)
         return self.emit(a)
 
+    def base_steps(self, frm, to):
+        steps = 0
+        cur = frm
+        while cur != to:
+            cs = self.u.find_class(cur)
+            if not cs or not cs[-1].get('bases'):
+                return None
+            cur = self.tm.info(cs[-1]['bases'][0]['type']['qualType'])['ctype']
+            steps += 1
+            if steps > 5:
+                return None
+        return steps
+
+    def new_temp(self, ti):
+        self.temp_no = getattr(self, 'temp_no', 0) + 1
+        name = 'vp_t%d' % self.temp_no
+        self.temps.append('%s %s;' % (self.decl_ctype(ti), name))
+        return name
+
     def addr_of(self, sa, ti):
+        if sa['kind'] in ('CallExpr', 'CXXMemberCallExpr', 'CXXOperatorCallExpr') and sa.get('valueCategory') == 'prvalue':
+            # a class-valued temporary passed on: materialise it in a function-level temporary (G11)
+            rti = self.tm.info(qtype(sa))
+            self.fire('G11')
+            t = self.new_temp(rti)
+            return '(%s, &%s)' % (self.call(sa, dst='&' + t), t)
+        if sa['kind'] in ('CXXTemporaryObjectExpr', 'CXXConstructExpr', 'CXXFunctionalCastExpr') and ti['kind'] == 'class':
+            inner = sa
+            while inner['kind'] == 'CXXFunctionalCastExpr':
+                inner = strip_all(kids(inner)[0])
+            if inner['kind'] in ('CXXTemporaryObjectExpr', 'CXXConstructExpr'):
+                rti = self.tm.info(qtype(inner))
+                self.fire('G11')
+                t = self.new_temp(rti)
+                return '(%s &%s)' % (self.construct(inner, rti).replace('@DST@', '&' + t).rstrip(';') + ',', t)
         if sa['kind'] in ('CXXTemporaryObjectExpr', 'CXXConstructExpr', 'InitListExpr') and ti['kind'] == 'vec' \
                 and not [a for a in kids(sa) if a['kind'] != 'CXXDefaultArgExpr']:
             self.fire('G6')
@@ -752,6 +828,8 @@ class Emitter:
             if op in ('operator+', 'operator-'):
                 v, i = self.iter_parts(ks[1])
                 return (v, '(%s %s %s)' % (i, op[-1], self.emit(ks[2])))
+        if k == 'CXXConstructExpr' and len(kids(n)) == 1:
+            return self.iter_parts(kids(n)[0])
         if k == 'DeclRefExpr' and n['referencedDecl']['id'] in self.opts.get('iter_params', {}):
             return self.opts['iter_params'][n['referencedDecl']['id']]
         if k == 'DeclRefExpr' and n['referencedDecl']['name'] in self.opts.get('iter_names', {}):
@@ -835,6 +913,17 @@ class Emitter:
             # the MemberExpr of a call has type '<bound member function type>'; take the callee's
             # parameter types from the call's argument nodes instead
             al = ['&(%s)' % obj] + [self.arg(a, None) for a in args]
+            for idx, cty in self.opts.get('cast_args', {}).get(cname, {}).items():
+                # template parameter P/I instantiated with a derived class, C callee takes the base: go to
+                # the base sub-object (never a pointer cast: CBMC's assigns checking loses track of the object)
+                a = args[idx - 1]
+                ai = self.tm.info(qtype(a))
+                target = cty.replace('const', '').replace('struct', '').replace('*', '').strip()
+                steps = self.base_steps(ai['ctype'], target)
+                if steps is None:
+                    raise ExtractError('argument %d of %s: %s is not derived from %s' % (idx, cname, ai['ctype'], target))
+                if steps:
+                    al[idx] = '&((%s).%s)' % (self.emit(strip_all(a)), '.'.join(['base'] * steps))
             rti = self.tm.info(qtype(n))
             if rti['kind'] in ('class', 'vec') and n.get('valueCategory') == 'prvalue':
                 if dst is None:
@@ -887,7 +976,11 @@ class Emitter:
         bb = self.spec.get(('begin', fn, k), '')
         be = self.spec.get(('end', fn, k), '')
         self.fire('G12')
-        btxt = self.emit(body)
+        self.loop_depth = getattr(self, 'loop_depth', 0) + 1
+        try:
+            btxt = self.emit(body)
+        finally:
+            self.loop_depth -= 1
         if body['kind'] == 'CompoundStmt':
             inner = btxt.strip()
             assert inner[0] == '{' and inner[-1] == '}'
@@ -996,6 +1089,7 @@ class Emitter:
     # -- functions -----------------------------------------------------------------------------------------------
     def function(self, fn, cname, cls_ti=None, is_ctor=False, const_method=False):
         self.cur_fn = cname
+        self.temps = []
         self.loop_no = 0
         self.loops = getattr(self, 'loops', [])
         self.refs = dict(self.opts.get('refs', {}))
@@ -1018,11 +1112,35 @@ class Emitter:
             rtxt = rti['ctype']
         if cls_ti is not None:
             plist.append('%sstruct %s *self' % ('const ' if (is_const and not self.opts.get('mutable_self')) else '', cls_ti))
-        for p in params:
+        ndef = self.opts.get('default_args', 0)
+        defaults = ''
+        first_iter = None
+        iter_params = {}
+        for pno, p in enumerate(params):
             pi = self.tm.info(qtype(p))
             nm = p.get('name')
             if nm is None:
                 nm = 'vp_unnamed%d' % len(plist)
+            if pno >= len(params) - ndef:
+                dk = kids(p)
+                if not dk:
+                    # uninstantiated default argument: take it from the template pattern (same source range)
+                    for cand in self.u.by_id.values():
+                        if cand.get('kind') == 'ParmVarDecl' and cand.get('name') == nm and kids(cand) and rng(cand) is not None and rng(p) is not None and rng(cand)[:2] == rng(p)[:2]:
+                            dk = kids(cand)
+                            break
+                if not dk:
+                    raise ExtractError('parameter %s has no default argument' % nm)
+                defaults += '%s %s = %s;\n' % (self.decl_ctype(pi), nm, self.emit(dk[-1]))
+                continue
+            if pi['kind'] == 'iter':
+                self.fire('G7')
+                if first_iter is None:
+                    first_iter = nm
+                    plist.append('const %s *%s_v' % (self.opts.get('iter_vec', 'vec_T'), nm))
+                plist.append('size_t %s' % nm)
+                iter_params[p['id']] = ('(*%s_v)' % first_iter, nm)
+                continue
             if pi['kind'] in ('class', 'vec', 'engine', 'opaque'):
                 self.fire('G5')
                 const = 'const ' if (pi['const'] and pi['ref']) else ''
@@ -1041,6 +1159,8 @@ class Emitter:
                 self.refs[p['id']] = '(*%s)' % nm
             else:
                 plist.append('%s %s' % (pi['ctype'], nm))
+        self.opts = dict(self.opts)
+        self.opts['iter_params'] = iter_params
         ghost = self.spec.get(('ghostparams', cname), '')
         if ghost:
             plist.append(ghost.strip())
@@ -1064,7 +1184,8 @@ class Emitter:
         tail = ''
         if rtxt == 'void' and ex:
             tail = ex
-        return '%s\n%s\n{\n%s%s%s%s\n}\n' % (sig, contract, entry, inits, inner, tail), sig
+        tdecl = ''.join(t + '\n' for t in self.temps)
+        return '%s\n%s\n{\n%s%s%s%s%s%s\n}\n' % (sig, contract, tdecl, defaults, entry, inits, inner, tail), sig
 
     def ctor_init(self, c):
         fld = c.get('anyInit') or {}
@@ -1092,6 +1213,10 @@ class Emitter:
             if e['kind'] == 'ImplicitValueInitExpr':
                 return '%s->%s = 0;\n' % (self.self_ptr, name)
             return '%s->%s = %s;\n' % (self.self_ptr, name, self.emit(ks[0]))
+        if fti['kind'] == 'carray':
+            if e['kind'] in ('CXXConstructExpr', 'InitListExpr', 'ImplicitValueInitExpr') and not [a for a in kids(e) if a['kind'] not in ('ImplicitValueInitExpr', 'InitListExpr')]:
+                return ''.join('%s->%s[%d] = 0;\n' % (self.self_ptr, name, i) for i in range(fti['count']))
+            raise ExtractError('array member initialiser')
         if fti['ptr']:
             return '%s->%s = %s;\n' % (self.self_ptr, name, self.emit(ks[0]))
         if fti['ref']:
